@@ -565,3 +565,58 @@ def writers_do_not_overflow(rep, rule, prog, cg):
                 rep.bad(rule, key, s_.loc(), 'writer-side arithmetic that can overflow for some value: %s %s in %s (a field id / size chosen by the caller makes the encoder panic, or wrap to a wrong header, so the value does not round trip)' % (s_.what, s_.detail, b.key))
     if n < 60:
         rep.anchor_missing(rule, 'arithmetic sites in writers / length passes (found %d)' % n)
+
+
+def map_header_order(rep, rule, prog, cg, names=('binary', 'binary_le', 'binary_unsafe')):
+    """fixed-width map header = key type byte, value type byte, count: readers fill TMapIdentifier.key_type from the first
+    byte they read and value_type from the second; writers put key_type first (the skippers walk a map by these two types)"""
+    ctor = prog.bodies.get('pilota::thrift::TMapIdentifier::new')
+    if ctor is not None:
+        okc = False
+        for bb in ctor.bbs:
+            for st in bb['st']:
+                r = st.get('r', {})
+                if r.get('k') == 'agg' and r['kind'].endswith('TMapIdentifier') and len(r['ops']) >= 2:
+                    def root_arg(e):
+                        while e and e[0] in ('call', 'cast', 'ref', 'deref'):
+                            e = (e[2][0] if e[2] else None) if e[0] == 'call' else (e[3] if e[0] == 'cast' else e[1])
+                        return e[1] if e and e[0] == 'arg' else None
+                    okc = root_arg(ctor.expr_op(r['ops'][0])) == 1 and root_arg(ctor.expr_op(r['ops'][1])) == 2
+        if okc:
+            rep.ok(rule, rule + '|TMapIdentifier::new', 'new(key_type, value_type, size) fills the fields in that order', ctor.loc())
+        else:
+            rep.bad(rule, rule + '|TMapIdentifier::new', ctor.loc(), 'TMapIdentifier::new(key_type, value_type, size) does not store its first parameter as key_type and its second as value_type')
+    for fname in names:
+        fam = Fam(prog, cg, fname)
+        for label, d in (('in-memory reader', fam.R), ('async reader', fam.A)):
+            b = d.get('read_map_begin')
+            if b is None:
+                continue
+            b = codec.effective_body(b, cg)
+            key = '%s|%s %s|map header order' % (rule, fname, label)
+            order = codec.rpo(b)
+            pos = {bi: i for i, bi in enumerate(order)}
+            found = None
+            for bb in b.bbs:
+                for st in bb['st']:
+                    r = st.get('r', {})
+                    if r.get('k') == 'agg' and r['kind'].endswith('TMapIdentifier') and len(r['ops']) >= 2:
+                        found = [b.expr_op(o) for o in r['ops'][:2]]
+            if not found:
+                for cs in b.calls():
+                    if cs.callee.endswith('TMapIdentifier::new') and len(cs.t['args']) >= 2:
+                        found = [cs.arg(0), cs.arg(1)]
+            if not found:
+                rep.anchor_missing(rule, '%s %s read_map_begin builds a TMapIdentifier' % (fname, label))
+                continue
+
+            def first_byte_read(e):
+                sites = [x[3] for x in mirlib.subexprs(e) if x and x[0] == 'call' and len(x) > 3 and re.search(r'read_(byte|u8|i8)$', x[1])]
+                return min((pos.get(bi, 10 ** 6) for bi in sites), default=None)
+            k, v = first_byte_read(found[0]), first_byte_read(found[1])
+            if k is None or v is None:
+                rep.anchor_missing(rule, '%s %s: byte reads feeding key_type / value_type' % (fname, label))
+            elif k < v:
+                rep.ok(rule, key, 'key_type from the first type byte, value_type from the second', b.loc())
+            else:
+                rep.bad(rule, key, b.loc(), '%s %s read_map_begin takes value_type from the first type byte and key_type from the second: the skipper then walks map<K, V> as map<V, K>' % (fname, label))
